@@ -11,7 +11,7 @@ from ..vlib import core
 from .. import cat_common as CC
 from .. import ag_common as AG
 
-KINDS = {"operand_mutated", "g_mutated", "repeat", "storage"}
+KINDS = {"operand_mutated", "g_mutated", "repeat", "storage", "outside_grad"}
 AGK = {"value": "C11", "g_mutated": "C11", "storage": "C11", "leaf_grad": "C11", "interior_grad": "C11"}
 
 
